@@ -20,6 +20,10 @@ enum Kind {
 
 #[derive(Clone, Debug)]
 struct Ent {
+    /// `Some((pax, name))`: the entry is preceded by a GNU long-name record (or a PAX `path=`
+    /// record) carrying `path`, and its own 100-byte name field says `name` instead
+    header: Option<(bool, String)>,
+    /// the name the entry goes by
     path: String,
     kind: Kind,
 }
@@ -31,21 +35,10 @@ fn prefix() -> String {
 fn build_archive(entries: &[Ent], corrupt_after: Option<usize>) -> Vec<u8> {
     use std::io::Write;
     let mut tar_bytes: Vec<u8> = Vec::new();
-    for (i, e) in entries.iter().enumerate() {
-        if corrupt_after == Some(i) {
-            break;
-        }
-        let mut h = tar::Header::new_gnu();
-        // write the raw name ourselves: tar::Builder refuses `..` and absolute names
-        let name = e.path.as_bytes();
+    let mut emit = |name: &[u8], typeflag: u8, data: &[u8], link: &str| {
         let mut block = [0u8; 512];
         let n = name.len().min(99);
         block[..n].copy_from_slice(&name[..n]);
-        let (typeflag, data, link): (u8, Vec<u8>, String) = match &e.kind {
-            Kind::File(c) => (b'0', c.as_bytes().to_vec(), String::new()),
-            Kind::Dir => (b'5', vec![], String::new()),
-            Kind::Symlink(t) => (b'2', vec![], t.clone()),
-        };
         block[100..107].copy_from_slice(b"0000644");
         block[108..115].copy_from_slice(b"0000000");
         block[116..123].copy_from_slice(b"0000000");
@@ -65,11 +58,40 @@ fn build_archive(entries: &[Ent], corrupt_after: Option<usize>) -> Vec<u8> {
         let cs = format!("{:06o}\0 ", sum);
         block[148..156].copy_from_slice(cs.as_bytes());
         tar_bytes.extend_from_slice(&block);
-        tar_bytes.extend_from_slice(&data);
+        tar_bytes.extend_from_slice(data);
         let pad = (512 - data.len() % 512) % 512;
         tar_bytes.extend(std::iter::repeat(0u8).take(pad));
-        let _ = &mut h;
+    };
+    for (i, e) in entries.iter().enumerate() {
+        if corrupt_after == Some(i) {
+            break;
+        }
+        // write the raw name ourselves: tar::Builder refuses `..` and absolute names
+        let (typeflag, data, link): (u8, Vec<u8>, String) = match &e.kind {
+            Kind::File(c) => (b'0', c.as_bytes().to_vec(), String::new()),
+            Kind::Dir => (b'5', vec![], String::new()),
+            Kind::Symlink(t) => (b'2', vec![], t.clone()),
+        };
+        match &e.header {
+            None => emit(e.path.as_bytes(), typeflag, &data, &link),
+            Some((pax, hname)) => {
+                if *pax {
+                    let body = format!(" path={}\n", e.path);
+                    let mut len = body.len() + 1;
+                    while format!("{len}{body}").len() != len {
+                        len = format!("{len}{body}").len();
+                    }
+                    emit(b"PaxHeaders.0/x", b'x', format!("{len}{body}").as_bytes(), "");
+                } else {
+                    let mut d = e.path.as_bytes().to_vec();
+                    d.push(0);
+                    emit(b"././@LongLink", b'L', &d, "");
+                }
+                emit(hname.as_bytes(), typeflag, &data, &link);
+            }
+        }
     }
+    drop(emit);
     if corrupt_after.is_some() {
         // a header block with a bad checksum: the reader stops with an error here
         let mut junk = [0x41u8; 512];
@@ -157,34 +179,42 @@ fn gen_entries(rng: &mut Rng, hostile: bool) -> Vec<Ent> {
     let files = ["Cargo.toml", "src/lib.rs", "src/a/mod.rs", "README.md", "build.rs", "src/b.rs"];
     for i in 0..n {
         let f = files[rng.below(files.len())];
-        v.push(Ent { path: format!("{p}/{f}"), kind: Kind::File(format!("content{i}")) });
+        v.push(Ent { header: None, path: format!("{p}/{f}"), kind: Kind::File(format!("content{i}")) });
     }
     if rng.chance(1, 3) {
-        v.insert(rng.below(v.len() + 1), Ent { path: format!("{p}/src"), kind: Kind::Dir });
+        v.insert(rng.below(v.len() + 1), Ent { header: None, path: format!("{p}/src"), kind: Kind::Dir });
     }
     if hostile {
         let tricks: Vec<Ent> = vec![
-            Ent { path: format!("{p}/.cargo-ok"), kind: Kind::File("ok".into()) },
-            Ent { path: format!("{p}/.cargo-ok"), kind: Kind::File("nope".into()) },
-            Ent { path: format!("{p}/../sibling-2.0.0/lib.rs"), kind: Kind::File("evil".into()) },
-            Ent { path: format!("/{p}/abs.rs"), kind: Kind::File("abs".into()) },
-            Ent { path: "sibling-2.0.0/lib.rs".into(), kind: Kind::File("evil".into()) },
-            Ent { path: format!("{p}x/lib.rs"), kind: Kind::File("evil".into()) },
-            Ent { path: format!("{p}/link"), kind: Kind::Symlink("../sibling-2.0.0".into()) },
-            Ent { path: format!("{p}/link/lib.rs"), kind: Kind::File("evil".into()) },
-            Ent { path: format!("{p}/out"), kind: Kind::Symlink("../../../outside".into()) },
-            Ent { path: format!("{p}/out/decoy.txt"), kind: Kind::File("evil".into()) },
-            Ent { path: format!("{p}/.cargo-ok"), kind: Kind::Symlink("../../../outside/decoy.txt".into()) },
-            Ent { path: format!("{p}/./dot.rs"), kind: Kind::File("dot".into()) },
+            Ent { header: None, path: format!("{p}/.cargo-ok"), kind: Kind::File("ok".into()) },
+            Ent { header: None, path: format!("{p}/.cargo-ok"), kind: Kind::File("nope".into()) },
+            Ent { header: None, path: format!("{p}/../sibling-2.0.0/lib.rs"), kind: Kind::File("evil".into()) },
+            Ent { header: None, path: format!("/{p}/abs.rs"), kind: Kind::File("abs".into()) },
+            Ent { header: None, path: "sibling-2.0.0/lib.rs".into(), kind: Kind::File("evil".into()) },
+            Ent { header: None, path: format!("{p}x/lib.rs"), kind: Kind::File("evil".into()) },
+            Ent { header: None, path: format!("{p}/link"), kind: Kind::Symlink("../sibling-2.0.0".into()) },
+            Ent { header: None, path: format!("{p}/link/lib.rs"), kind: Kind::File("evil".into()) },
+            Ent { header: None, path: format!("{p}/out"), kind: Kind::Symlink("../../../outside".into()) },
+            Ent { header: None, path: format!("{p}/out/decoy.txt"), kind: Kind::File("evil".into()) },
+            Ent { header: None, path: format!("{p}/.cargo-ok"), kind: Kind::Symlink("../../../outside/decoy.txt".into()) },
+            Ent { header: None, path: format!("{p}/./dot.rs"), kind: Kind::File("dot".into()) },
             // something *below* the marker name: makes `.cargo-ok` a directory
-            Ent { path: format!("{p}/.cargo-ok/inner.txt"), kind: Kind::File("ok".into()) },
-            Ent { path: format!("{p}/.cargo-ok/"), kind: Kind::Dir },
+            Ent { header: None, path: format!("{p}/.cargo-ok/inner.txt"), kind: Kind::File("ok".into()) },
+            Ent { header: None, path: format!("{p}/.cargo-ok/"), kind: Kind::Dir },
             // the crate directory itself as an entry: a link out of the cache / to a sibling, a
             // plain file, a directory
-            Ent { path: p.clone(), kind: Kind::Symlink("../../outside".into()) },
-            Ent { path: p.clone(), kind: Kind::Symlink("sibling-2.0.0".into()) },
-            Ent { path: p.clone(), kind: Kind::File("flat".into()) },
-            Ent { path: format!("{p}/"), kind: Kind::Dir },
+            Ent { header: None, path: p.clone(), kind: Kind::Symlink("../../outside".into()) },
+            Ent { header: None, path: p.clone(), kind: Kind::Symlink("sibling-2.0.0".into()) },
+            Ent { header: None, path: p.clone(), kind: Kind::File("flat".into()) },
+            Ent { header: None, path: format!("{p}/"), kind: Kind::Dir },
+            // the name that counts is the long one from the preceding record, whatever the
+            // entry's own name field says
+            Ent { header: Some((false, format!("{p}/src/long.rs"))), path: "sibling-2.0.0/lib.rs".into(), kind: Kind::File("evil".into()) },
+            Ent { header: Some((true, format!("{p}/build.rs"))), path: "sibling-2.0.0/build.rs".into(), kind: Kind::File("evil".into()) },
+            Ent { header: Some((false, format!("{p}/ok.txt"))), path: format!("{p}/.cargo-ok"), kind: Kind::File("ok".into()) },
+            Ent { header: Some((true, format!("{p}/ok.txt"))), path: format!("{p}/.cargo-ok"), kind: Kind::File("ok".into()) },
+            Ent { header: Some((rng.chance(1, 2), format!("{p}/src/trunc"))), path: format!("{p}/src/deeply/nested/module.rs"), kind: Kind::File("long".into()) },
+            Ent { header: Some((false, "sibling-2.0.0/lib.rs".into())), path: format!("{p}/src/fine.rs"), kind: Kind::File("fine".into()) },
         ];
         for _ in 0..rng.range(1, 3) {
             let t = tricks[rng.below(tricks.len())].clone();
@@ -197,8 +227,8 @@ fn gen_entries(rng: &mut Rng, hostile: bool) -> Vec<Ent> {
 /// hand-written archives that run first in every tier
 fn corpus() -> Vec<(Vec<Ent>, Option<usize>)> {
     let p = prefix();
-    let f = |path: String, c: &str| Ent { path, kind: Kind::File(c.into()) };
-    let l = |path: String, t: &str| Ent { path, kind: Kind::Symlink(t.into()) };
+    let f = |path: String, c: &str| Ent { header: None, path, kind: Kind::File(c.into()) };
+    let l = |path: String, t: &str| Ent { header: None, path, kind: Kind::Symlink(t.into()) };
     let benign = vec![f(format!("{p}/Cargo.toml"), "manifest"), f(format!("{p}/src/lib.rs"), "code")];
     let with = |extra: Vec<Ent>, at_front: bool| {
         let mut v = benign.clone();
@@ -228,7 +258,12 @@ fn corpus() -> Vec<(Vec<Ent>, Option<usize>)> {
         (with(vec![l(p.clone(), "../../outside")], false), None),
         (with(vec![l(p.clone(), "sibling-2.0.0")], true), None),
         (with(vec![f(p.clone(), "flat")], true), None),
-        (with(vec![Ent { path: format!("{p}/"), kind: Kind::Dir }], true), Some(1)),
+        (with(vec![Ent { header: None, path: format!("{p}/"), kind: Kind::Dir }], true), Some(1)),
+        // long-name records: the marker under a long name, then an interruption; a sibling's file
+        (with(vec![Ent { header: Some((false, format!("{p}/ok.txt"))), path: format!("{p}/.cargo-ok"), kind: Kind::File("ok".into()) }], true), Some(2)),
+        (with(vec![Ent { header: Some((true, format!("{p}/ok.txt"))), path: format!("{p}/.cargo-ok"), kind: Kind::File("ok".into()) }], true), Some(2)),
+        (with(vec![Ent { header: Some((false, format!("{p}/src/long.rs"))), path: "sibling-2.0.0/lib.rs".into(), kind: Kind::File("evil".into()) }], false), None),
+        (with(vec![Ent { header: Some((true, format!("{p}/build.rs"))), path: "sibling-2.0.0/build.rs".into(), kind: Kind::File("evil".into()) }], true), None),
         // `..`, absolute and foreign-prefix names
         (with(vec![f(format!("{p}/../sibling-2.0.0/lib.rs"), "evil"), f(format!("/{p}/abs.rs"), "abs"), f(format!("{p}x/lib.rs"), "evil")], false), None),
     ]
